@@ -30,6 +30,7 @@ EXIT_CAP = 300.0   # virtual seconds after which a context exit that has not ret
 LATE_WINDOW = 300.0
 _N_CACHE: Dict[Any, int] = {}
 _SPANS_CACHE: Dict[Any, Any] = {}
+_EPK_CACHE: Dict[Any, Any] = {}
 
 
 def scenario_case(sseed: int, scen: str, k: Optional[int], kind: str) -> Dict[str, Any]:
@@ -41,6 +42,10 @@ def scenario_case(sseed: int, scen: str, k: Optional[int], kind: str) -> Dict[st
            "suspend_p": rng.choice([0.0, 0.0, 0.2]) if not scen.startswith("auto-") else rng.choice([0.0, 0.5, 1.0]),
            "suspend_max": 0.4, "lossp": rng.choice([0.1, 0.25]),
            "inject": {"k": k, "kind": kind}}
+    if sseed % 2 == 1:
+        # tuning knob: the pause between handshake steps (shipped 0 = one turn of the loop): with a real pause the windows between the
+        # steps of _connect() are many callbacks wide
+        cfg["consts"] = {"CONNECTION_STEP_PAUSE_IN_SECONDS": 0.2}
     if scen in ("connect", "lossy-connect"):
         # hold the client's handler in the deliveries that mark the transient states (SPA_READY, LOCATED_SPAS), so that injection points
         # fall inside them
@@ -57,6 +62,7 @@ def baseline_n(sseed: int, scen: str) -> int:
             pass
         _N_CACHE[key] = int(r.stats.get("body_callbacks", r.callbacks))
         _SPANS_CACHE[key] = (r.sample or {}).get("state_spans", [])
+        _EPK_CACHE[key] = (r.sample or {}).get("endpoint_ks", [])
     return _N_CACHE[key]
 
 
@@ -73,7 +79,10 @@ def gen_case(seed: int, tier: str, index: int) -> Dict[str, Any]:
     n = baseline_n(sseed, scen)
     k = rng.randint(1, max(1, n))
     spans = state_spans(sseed, scen)
-    if spans and rng.random() < 0.4:
+    epk = _EPK_CACHE.get((sseed, scen), [])
+    if epk and rng.random() < 0.15:
+        k = max(1, min(n, rng.choice(epk) + rng.choice([0, 1, 1, 2, 3, 5])))
+    elif spans and rng.random() < 0.4:
         # stratified by manager state: pick a state the baseline visited, then an index inside one of its spans, so that the short-lived
         # states (LOCATED_SPAS, SPA_READY, IDLE) get their share of injection points
         st = rng.choice(sorted({sp[0] for sp in spans}))
@@ -139,6 +148,8 @@ async def scenario(world: WorldA) -> None:
     inj = cfg.get("inject") or {"k": None, "kind": "none"}
     sysm = System(world, record_queues=False, record_calls=False, record_installs=False,
                   man_kwargs={"spa_address": SPA_IP, "spa_identifier": SPA_ID, "spa_name": SPA_NAME})
+    ep_cbs: List[int] = []
+    world.loop.endpoint_hooks.append(lambda tr, pr: ep_cbs.append(world.loop.callbacks))
     man = sysm.man
     model = sysm.peer.sim
     watcher = Watcher(world, sysm)
@@ -449,6 +460,9 @@ async def scenario(world: WorldA) -> None:
                 else:
                     spans.append([a["state"].name, k0, k1])
         res.sample["state_spans"] = spans[:400]
+        # ... and the injection indices right after an endpoint was opened (discovery, connection): the few callbacks in which the
+        # endpoint exists but the tasks that will use it do not
+        res.sample["endpoint_ks"] = [c - start_cb["n"] for c in ep_cbs if c >= start_cb["n"]][:40]
 
 
 def _is_locator(tr, sysm: System) -> bool:
@@ -469,6 +483,26 @@ async def late_traffic(world: WorldA, sysm: System, model, transports) -> None:
             world.net.inject((SPA_IP, SPA_PORT), tr.local, frame(inner), delay=0.05 + 0.3 * i, who="late")
         world.net.inject((SPA_IP, SPA_PORT), tr.local, GeckoHelloProtocolHandler.response(SPA_ID.encode(), SPA_NAME).send_bytes, delay=0.2, who="late")
     world.result.fault("late_datagrams", 6 * len(transports))
+
+
+def orphan_consumers() -> List[str]:
+    """Live library tasks running a queue consumer (`consume(protocol)`) whose protocol no longer has an endpoint."""
+    out = []
+    for t in library_tasks():
+        if t.done():
+            continue
+        coro = t.get_coro()
+        seen = 0
+        while coro is not None and seen < 6:
+            fr = getattr(coro, "cr_frame", None)
+            if fr is not None and fr.f_code.co_name == "consume":
+                pr = fr.f_locals.get("protocol")
+                if pr is not None and getattr(pr, "transport", "?") is None:
+                    out.append(t.get_name())
+                break
+            coro = getattr(coro, "cr_await", None)
+            seen += 1
+    return sorted(out)
 
 
 async def check_after_reset(world: WorldA, sysm: System, man, watcher: Watcher, snap, state, inj, model) -> None:
@@ -498,6 +532,12 @@ async def check_after_reset(world: WorldA, sysm: System, man, watcher: Watcher, 
         sig = "task-left-after-reset:" + "+".join(sorted({a.split(":")[0] + ":" + a.split(":")[1] for a in alive}))
         world.note(PROP, "task-left-after-reset", f"tasks of the abandoned connection still alive {GRACE}s after the {inj['kind']} "
                       f"returned: {alive} ({ctx})", sig=sig)
+    # tasks started *after* the reset on behalf of the abandoned connection: a consumer task that polls the receive queue of a protocol
+    # whose endpoint is gone serves nobody and never ends by itself
+    orphans = orphan_consumers()
+    if orphans:
+        world.note(PROP, "task-left-after-reset", f"{GRACE}s after the {inj['kind']} returned, consumer task(s) are polling a connection whose endpoint "
+                      f"has been released: {orphans} ({ctx})", sig="task-left-after-reset:consumers-on-a-released-endpoint")
     # late effects: in-flight + fresh datagrams to the abandoned endpoints, all old timers fire
     mark_calls = len(watcher.calls)
     mark_deliv = len(man.deliveries)
